@@ -17,9 +17,14 @@ MODULE = "tel2puml/otel_to_pv/data_holders/sql_data_holder/sql_dataholder.py"
 FILES = {"": MODULE, "job_ids_to_eventid_to_otelevent_map": "tel2puml/otel_to_pv/sequence_otel.py",
          "convert_otel_event_stream_to_event_id_to_otelevent_map": "tel2puml/otel_to_pv/sequence_otel.py"}
 KW_CTOR = ["OTelEvent"]
+USES_GROUPBY = True
 _FIELDS = ["job_name", "job_id", "event_type", "event_id", "start_timestamp", "end_timestamp", "application_name", "parent_event_id"]
 
+BY_NAME = "key=lambda x: x.job_name"
+BY_ID = "key=lambda x: x.job_id"
 RECORDS = {
+    "Session": {"fields": {}},
+    "SQLDataHolder": {"fields": {"session": "Session", "batch_size": "int"}},
     "OTelEvent": {"fields": {"job_name": "str", "job_id": "str", "event_type": "str", "event_id": "str", "start_timestamp": "int",
                              "end_timestamp": "int", "application_name": "str", "parent_event_id": "Optional[str]",
                              "child_event_ids": "Optional[list[str]]"}},
@@ -31,6 +36,20 @@ RECORDS = {
 SPECS = '''
 def disconnected(g: list[OTelEvent]) -> bool:
     return any(g[p].parent_event_id is not None and not any(g[q].event_id == g[p].parent_event_id for q in range(len(g))) for p in range(len(g)))
+
+@opaque
+def rows_of(h: SQLDataHolder, m: Optional[dict[str, set[str]]], f: Optional[set[str]]) -> list[OTelEvent]:
+    return []
+
+def sorted_rows(rows: list[OTelEvent]) -> bool:
+    return all(rows[i].job_name < rows[j].job_name or (rows[i].job_name == rows[j].job_name and rows[i].job_id <= rows[j].job_id)
+               for i in range(len(rows)) for j in range(i + 1, len(rows)))
+
+def sorted_ids(rows: list[OTelEvent]) -> bool:
+    return all(rows[i].job_id <= rows[j].job_id for i in range(len(rows)) for j in range(i + 1, len(rows)))
+
+def traces_of(g: list[OTelEvent]) -> list[list[OTelEvent]]:
+    return [[e for e in g2] for _, g2 in groupby(g, key=lambda x: x.job_id)]
 
 def is_map_of(m: dict[str, OTelEvent], g: list[OTelEvent]) -> bool:
     return (all(g[p].event_id in m for p in range(len(g))) and all(any(g[p].event_id == k for p in range(len(g))) for k in m)
@@ -51,6 +70,47 @@ CONTRACTS = {
         "raises": {"OTelTreeDisconnectedError": "disconnected(otel_event_stream)"},
         "ensures": {"map_of_stream": "is_map_of(result, otel_event_stream)"},
     },
+    # the SQL row stream (filters, ORDER BY job_name, job_id, yield_per): trusted - one span per selected stored row, in that order
+    "SQLDataHolder.stream_job_name_batches": {
+        "trusted": True, "params": {"session": "Session"}, "returns": "list[OTelEvent]",
+        "ensures": {"rows": "result == rows_of(self, job_name_to_job_ids_map, filter_job_names)", "ordered": "sorted_rows(result)"},
+    },
+    "SQLDataHolder.stream_data": {
+        "generator": True, "returns": "list[tuple[str, list[list[OTelEvent]]]]", "externals": ["session"],
+        "loops": {0: {"index": "a", "seq": "G", "invariant": {
+            "src": f"G == groupby(rows_of(self, job_name_to_job_ids_map, filter_job_names), {BY_NAME})",
+            "count": "len(yielded) == a",
+            "each": "all(yielded[k][0] == G[k][0] and yielded[k][1] == traces_of(G[k][1]) for k in range(a))",
+        }}},
+        "ensures": {
+            # the code's own shape: one entry per run of equal names, under it one list per run of equal trace ids
+            "runs": f"len(result) == len(groupby(rows_of(self, job_name_to_job_ids_map, filter_job_names), {BY_NAME})) and "
+                    f"all(result[k][0] == groupby(rows_of(self, job_name_to_job_ids_map, filter_job_names), {BY_NAME})[k][0] and "
+                    f"result[k][1] == traces_of(groupby(rows_of(self, job_name_to_job_ids_map, filter_job_names), {BY_NAME})[k][1]) for k in range(len(result)))",
+            # "yields each workflow name once ..."
+            "each_name_once": "all(result[a][0] != result[b][0] for a in range(len(result)) for b in range(a + 1, len(result)))",
+            # "... and, under it, each of its traces exactly once ..." (a trace is listed by its spans; its id is the id of its first span)
+            "each_trace_once": "all(all(result[a][1][s][0].job_id != result[a][1][t][0].job_id for s in range(len(result[a][1])) "
+                               "for t in range(s + 1, len(result[a][1]))) for a in range(len(result)))",
+            "no_empty_trace": "all(all(len(tr) >= 1 for tr in result[a][1]) for a in range(len(result)))",
+            # "... with all its spans ... No span is dropped, duplicated ...": the j-th span of the s-th trace of the a-th name is the row
+            # number start(a) + start(s) + j of the row stream, and every row is reached this way
+            "in_row_order": ("all(all(all(result[a][1][s][j] == R[group_start(R, a, BY_NAME) + group_start(groupby(R, BY_NAME)[a][1], s, BY_ID) + j] "
+                             "for j in range(len(result[a][1][s]))) for s in range(len(result[a][1]))) for a in range(len(result)))"
+                             ).replace("R", "rows_of(self, job_name_to_job_ids_map, filter_job_names)").replace("BY_NAME", BY_NAME).replace("BY_ID", BY_ID),
+            "every_row_streamed": ("all(0 <= group_of(R, i, BY_NAME) < len(result) and 0 <= group_of(groupby(R, BY_NAME)[group_of(R, i, BY_NAME)][1], "
+                                   "i - group_start(R, group_of(R, i, BY_NAME), BY_NAME), BY_ID) < len(result[group_of(R, i, BY_NAME)][1]) and "
+                                   "result[group_of(R, i, BY_NAME)][1][group_of(groupby(R, BY_NAME)[group_of(R, i, BY_NAME)][1], "
+                                   "i - group_start(R, group_of(R, i, BY_NAME), BY_NAME), BY_ID)]"
+                                   "[i - group_start(R, group_of(R, i, BY_NAME), BY_NAME) - group_start(groupby(R, BY_NAME)[group_of(R, i, BY_NAME)][1], "
+                                   "group_of(groupby(R, BY_NAME)[group_of(R, i, BY_NAME)][1], i - group_start(R, group_of(R, i, BY_NAME), BY_NAME), BY_ID), BY_ID)] == R[i] "
+                                   "for i in range(len(R)))"
+                                   ).replace("R", "rows_of(self, job_name_to_job_ids_map, filter_job_names)").replace("BY_NAME", BY_NAME).replace("BY_ID", BY_ID),
+            # "... No span is ... attributed to another trace or workflow"
+            "homogeneous": "all(all(all(e.job_name == result[a][0] and e.job_id == tr[0].job_id for e in tr) for tr in result[a][1]) for a in range(len(result)))",
+        },
+        "hints": [f"use name_runs_increase(rows_of(self, job_name_to_job_ids_map, filter_job_names))"],
+    },
     "job_ids_to_eventid_to_otelevent_map": {
         "generator": True,
         "params": {"job_id_streams": "list[list[OTelEvent]]"},
@@ -67,7 +127,28 @@ CONTRACTS = {
         },
     },
 }
-ORDER = ["SQLDataHolder.node_to_otel_event", "convert_otel_event_stream_to_event_id_to_otelevent_map", "job_ids_to_eventid_to_otelevent_map"]
+ORDER = ["SQLDataHolder.node_to_otel_event", "convert_otel_event_stream_to_event_id_to_otelevent_map", "job_ids_to_eventid_to_otelevent_map",
+         # in a list ordered by name, the runs of equal names have strictly increasing names (so every name has ONE run) ...
+         {"name": "name_runs_step", "forall": {"rows": "list[OTelEvent]", "h": "int"},
+          "requires": ["sorted_rows(rows)", f"1 <= h < len(groupby(rows, {BY_NAME}))"],
+          "ensures": f"groupby(rows, {BY_NAME})[h - 1][0] < groupby(rows, {BY_NAME})[h][0]",
+          "hints": [f"group_start(rows, h - 1, {BY_NAME}) < group_start(rows, h, {BY_NAME})"], "explicit": True},
+         {"name": "name_runs_increase", "forall": {"rows": "list[OTelEvent]"},
+          "requires": ["sorted_rows(rows)"],
+          "ensures": f"all(groupby(rows, {BY_NAME})[g][0] < groupby(rows, {BY_NAME})[h][0] for g in range(len(groupby(rows, {BY_NAME}))) "
+                     f"for h in range(g + 1, len(groupby(rows, {BY_NAME}))))",
+          "explicit": True, "trusted": False},
+         # ... the spans under one name are ordered by trace id, so the same holds for the runs of equal trace ids under a name
+         {"name": "name_group_sorted", "forall": {"rows": "list[OTelEvent]", "a": "int"},
+          "requires": ["sorted_rows(rows)", f"0 <= a < len(groupby(rows, {BY_NAME}))"],
+          "ensures": f"sorted_ids(groupby(rows, {BY_NAME})[a][1])",
+          "triggers": [f"groupby(rows, {BY_NAME})[a]"]},
+         {"name": "id_runs_increase", "forall": {"g": "list[OTelEvent]"},
+          "requires": ["sorted_ids(g)"],
+          "ensures": f"all(groupby(g, {BY_ID})[s][0] < groupby(g, {BY_ID})[t][0] for s in range(len(groupby(g, {BY_ID}))) "
+                     f"for t in range(s + 1, len(groupby(g, {BY_ID}))))",
+          "triggers": [f"groupby(g, {BY_ID})"]},
+         "SQLDataHolder.stream_job_name_batches", "SQLDataHolder.stream_data"]
 
 
 def setup(V):
@@ -75,6 +156,111 @@ def setup(V):
 
 
 # ----------------------------------------------------------------------------- native reading
+def _runs(xs, key):
+    import itertools
+    return [(k, list(g)) for k, g in itertools.groupby(xs, key=key)]
+
+
+def native_env(nat):
+    def groupby(xs, key):
+        return _runs(list(xs), key)
+
+    def group_start(xs, g, key):
+        return sum(len(r) for _, r in _runs(list(xs), key)[:g])
+
+    def group_of(xs, i, key):
+        pos = 0
+        for gi, (_, r) in enumerate(_runs(list(xs), key)):
+            if pos <= i < pos + len(r):
+                return gi
+            pos += len(r)
+        return -1
+
+    def rows_of(h, m, f):
+        """the row stream of the (trusted) SQL query, read again"""
+        key = repr((sorted((k, sorted(v)) for k, v in m.items()) if m else None, sorted(f) if f else None))
+        cache = h.__dict__.setdefault("_verif_rows", {})      # the store does not change while a case is evaluated
+        if key not in cache:
+            with h.session as session:
+                cache[key] = list(h.stream_job_name_batches(session, m, f))
+        return cache[key]
+    return {"groupby": groupby, "group_start": group_start, "group_of": group_of, "rows_of": rows_of}
+
+
+def validate_trusted(nat, rng, n):
+    """the axioms of pyvc/itertools_model.py against CPython's itertools.groupby, on random short lists"""
+    bad, cnt = [], 0
+    for _ in range(n):
+        xs = [rng.choice("abc") for _ in range(rng.randrange(0, 9))]
+        key = (lambda x: x)
+        G = _runs(xs, key)
+        cnt += 1
+        start = [sum(len(r) for _, r in G[:g]) for g in range(len(G) + 1)]
+        ok = start[0] == 0 and start[-1] == len(xs)
+        for g, (k, r) in enumerate(G):
+            ok = ok and len(r) >= 1 and start[g + 1] == start[g] + len(r) and k == key(xs[start[g]])
+            ok = ok and all(r[j] == xs[start[g] + j] and key(xs[start[g] + j]) == k for j in range(len(r)))
+            ok = ok and (g + 1 >= len(G) or G[g][0] != G[g + 1][0])
+        for i in range(len(xs)):
+            gs = [g for g in range(len(G)) if start[g] <= i < start[g + 1]]
+            ok = ok and len(gs) == 1 and key(xs[i]) == G[gs[0]][0]
+        ok = ok and all(start[g] < start[h] for g in range(len(G) + 1) for h in range(g + 1, len(G) + 1))
+        if not ok:
+            bad.append(xs)
+    return cnt, bad
+
+
+class _StreamCase(dict):
+    pass
+
+
+def _mk_stream_case(nat, d):
+    """d: {"spans": [[name, trace, type, id, parent], ...], "batch": b, "m": None | {name: [ids]}, "f": None | [names]}"""
+    import importlib
+    sq = importlib.import_module("tel2puml.otel_to_pv.data_holders.sql_data_holder.sql_dataholder")
+    cfgm = importlib.import_module("tel2puml.otel_to_pv.config")
+    t = importlib.import_module("tel2puml.otel_to_pv.otel_to_pv_types")
+    dm = importlib.import_module("tel2puml.otel_to_pv.data_holders.sql_data_holder.data_model")
+    if "temp_root_nodes" in dm.Base.metadata.tables:
+        dm.Base.metadata.remove(dm.Base.metadata.tables["temp_root_nodes"])
+    h = sq.SQLDataHolder(cfgm.SQLDataHolderConfig(db_uri="sqlite:///:memory:", batch_size=d["batch"], time_buffer=0))
+    with h:
+        for k, (name, trace, etype, eid, parent) in enumerate(d["spans"]):
+            h.save_data(t.OTelEvent(job_name=name, job_id=trace, event_type=etype, event_id=eid, start_timestamp=k, end_timestamp=k + 1,
+                                    application_name="app", parent_event_id=parent, child_event_ids=None))
+    out = _StreamCase()
+    out.desc = d
+    out["self"] = h
+    out["job_name_to_job_ids_map"] = None if d.get("m") is None else {k: set(v) for k, v in d["m"].items()}
+    out["filter_job_names"] = None if d.get("f") is None else set(d["f"])
+    return out
+
+
+def _gen_stream_data(nat, rng, n):
+    for _ in range(min(n, 150)):
+        spans = []
+        for ti in range(rng.randrange(0, 5)):
+            name = rng.choice(["W1", "W2", "W 3"])
+            tid = f"t{ti}"
+            for j in range(rng.randrange(1, 5)):
+                spans.append([name, tid, rng.choice("AB"), f"{tid}.{j}", None if j == 0 else f"{tid}.{rng.randrange(j)}"])
+        rng.shuffle(spans)
+        m = None if rng.random() < 0.6 else {nm: [f"t{rng.randrange(5)}" for _ in range(rng.randrange(0, 3))] for nm in ["W1", "W2"] if rng.random() < 0.7}
+        yield _mk_stream_case(nat, {"spans": spans, "batch": rng.choice([1, 2, 3, 1000]), "m": m or None, "f": None})
+
+
+def _call_stream_data(nat, a):
+    h = a["self"]
+    out = []
+    for job_name, job_streams in h.stream_data(a["job_name_to_job_ids_map"], a["filter_job_names"]):
+        out.append((job_name, [list(g) for g in job_streams]))
+    return out
+
+
+NATIVE_CALL = {"SQLDataHolder.stream_data": _call_stream_data}
+NO_OLD_COPY = {"SQLDataHolder.stream_data"}
+
+
 def _gen_node(nat, rng, n):
     import importlib
     dm = importlib.import_module("tel2puml.otel_to_pv.data_holders.sql_data_holder.data_model")
@@ -107,10 +293,11 @@ def _gen_jobs(nat, rng, n):
         yield {"job_id_streams": streams}
 
 
-GEN = {"SQLDataHolder.node_to_otel_event": _gen_node, "job_ids_to_eventid_to_otelevent_map": _gen_jobs}
+GEN = {"SQLDataHolder.node_to_otel_event": _gen_node, "job_ids_to_eventid_to_otelevent_map": _gen_jobs, "SQLDataHolder.stream_data": _gen_stream_data}
 ENCODE = {
     "SQLDataHolder.node_to_otel_event": lambda a: {"node": {f: getattr(a["node"], f) for f in _FIELDS}, "children": [c.event_id for c in a["node"].children]},
     "job_ids_to_eventid_to_otelevent_map": lambda a: [[e.model_dump() for e in g] for g in a["job_id_streams"]],
+    "SQLDataHolder.stream_data": lambda a: getattr(a, "desc", None),
 }
 
 
@@ -128,4 +315,5 @@ def _dec_jobs(nat, e):
     return {"job_id_streams": [[t.OTelEvent(**d) for d in g] for g in e]}
 
 
-DECODE = {"SQLDataHolder.node_to_otel_event": _dec_node, "job_ids_to_eventid_to_otelevent_map": _dec_jobs}
+DECODE = {"SQLDataHolder.node_to_otel_event": _dec_node, "job_ids_to_eventid_to_otelevent_map": _dec_jobs,
+          "SQLDataHolder.stream_data": lambda nat, e: _mk_stream_case(nat, e)}
